@@ -335,6 +335,9 @@ func init() {
 		if fr != nil && m.cfg.params["time_visible"] != 0 {
 			m.yieldPoint(fr, "time")
 		}
+		if m.nowSym != nil {
+			return m.symTimeValue(m.nowSym), true
+		}
 		return m.timeValue(m.now), true
 	})
 	reg("time.runtimeNano", func(m *machine, fr *frame, fn *ssa.Function, a []value) (value, bool) {
